@@ -275,7 +275,10 @@ CLAIMED = {
              'completely written and published by its claimant), c04_multi_payload_intact (slot layer Model/RingMultiPay: what a '
              'handler is handed for a sequence is the one value its claimant wrote for it — the next item of that writer — '
              'transformed by the mutable handlers of the earlier stages; writers interleaving, out-of-order publication and ring '
-             'wrap-around included); the full delivery statement is false (known findings F8 and '
+             'wrap-around included); c04_multi_delivered_after_drain (after drain every terminated handler has been handed exactly '
+             '1..cursor), c04_multi_complete_when_released (if moreover cursor = high watermark: exactly the claimed sequences, each '
+             'written once by its claimant), c04_multi_single_writer_delivers_all (one writer thread: every fair schedule ends with '
+             '1..sum(batches) delivered to every handler); in general the full delivery statement is false (known findings F8 and '
              'F13-C04, kernel-checked witness c04_multi_stranded_event_lost, replayed on the real code). Tie: every '
              'real trace (facade operation, handler call with payload, slot access) is replayed step by step on the Lean model '
              '(MISMATCH) and judged by the delivery/payload oracle on the implementation events (SPECFAIL).',
